@@ -181,7 +181,13 @@ def cmp_on_grid(c, r, out):
         if len(bad) > 0:
             return f"{len(bad)} nearest-neighbour samples differ (first at kept index {bad[0]}: {vals[bad[0]]} vs {float(m[bad[0]])})"
         return None
-    return close(vals, m, RTOL32, max(r["amax"], abs(c["c"] or 0)))
+    # deepali's maps are float32: a world coordinate of magnitude |w| carries eps32·|w| of absolute error, i.e.
+    # 8·eps32·|w|/spacing source-index units (as in `itk.spec`), which an image whose neighbouring samples differ by up to
+    # 2·max|I| turns into that many grey values; negligible unless the grids sit far from the world origin with tiny spacings
+    w = max(abs(float(v)) for g in (c["src"], c["tgt"]) for v in (g.get("center") or g.get("origin")))
+    cond = 8 * 1.2e-7 * w / min(float(v) for v in c["src"]["spacing"])
+    scale = max(r["amax"], abs(c["c"] or 0))
+    return close(vals, m, RTOL32, scale + cond * 2 * r["amax"] / RTOL32)
 
 
 # ---------------------------------------------------------------- stream: module entry points, every axes choice
